@@ -51,6 +51,9 @@ def _chunk(vecs):
                 if e['pl'] == 'class':
                     val = attrs.get('class')
                     want = 'c' + e['v']
+                elif e['pl'] == 'id':
+                    val = attrs.get('id')
+                    want = 'j' + e['v']
                 elif e['pl'] == 'attr':
                     val = attrs.get('t')
                     want = 'v' + e['v']
@@ -73,7 +76,7 @@ def run(out):
                        'values of "@-" forms under a truncating maxRepeat are not compared (the statement defines the last copy for a '
                        'complete run only); the number and nesting of copies still is',
                        'tag lexer harness/project_html.py trusted']
-    allp = {"name", "class", "attr", "text"}
+    allp = {"name", "class", "attr", "text", "id"}
     insts = [
         ('structure', dict(constants=dict(MaxTok=6 if quick else 7, Names={"x"}, Reps={2, 3}, Limits={0, 2, 3} if quick else {0, 1, 2, 3, 5},
                                           MaxGroups=2, MaxReps=3, Places={"name"}, FormIdx={1, 2} if quick else {1, 2, 5}))),
@@ -81,7 +84,7 @@ def run(out):
                                                 MaxGroups=1, MaxReps=2, Places=allp, FormIdx={1, 2, 3, 4, 5, 6, 7, 8, 9, 10}))),
         ('simulated', dict(constants=dict(MaxTok=14 if quick else 22, Names={"x", "y"}, Reps={2, 3, 4}, Limits={0, 1, 2, 3, 5, 8},
                                           MaxGroups=2, MaxReps=4, Places=allp, FormIdx={1, 2, 3, 4, 5, 6, 7, 8, 9, 10}),
-                           simulate=150 if quick else 2000, depth=120 if quick else 260, seed=out.seed)),
+                           simulate=4 if quick else 90, depth=120 if quick else 260, seed=out.seed)),
     ]
     for name, kw in insts:
         r = common.run_tlc('AbbrRepeat', timeout=3000, heap='12g', coverage=(name == 'structure' and not quick), **kw)
@@ -93,6 +96,8 @@ def run(out):
         for v in r.vectors():
             if len(v['out']) <= 300:
                 vecs.setdefault((v['abbr'], v['limit']), v)
+        if r.mode == 'simulate':
+            vecs = dict(common.sample(vecs.items(), 3000 if quick else 60000, out.seed, key=lambda kv: repr(kv[0])))
         if r.mode == 'bfs':
             out.exhaustive = r.exhaustive if out.exhaustive is None else (out.exhaustive and r.exhaustive)
         bad = common.pool_map(_chunk, list(vecs.values()), chunk=1500)
